@@ -1,108 +1,206 @@
 package main
 
-import "go/ast"
+import (
+	"go/ast"
+	"strings"
+)
 
-// C03: facts about the executed-filter of the three executors
-//   - Substrate Execute / EVM proposalBatches: order of lookup, error return, skip-if-executed and collection in the loop
-//   - Substrate: which slice the emptiness test after the loop looks at
-//   - BTC isExecuted: the condition under which a proposal may be executed, as a Lean Bool over status codes
+// C03: regenerated facts about the executed-filter of the three executors. Every fact is an Option: `none` = the anchor
+// was not located in a shape the translator understands (o.Unavailable; the obligation is vacuous and the
+// correspondence ops carry the clause alone). Anchors are located by shape (see util_c03c17.go).
+//   subFilter / evmFilter       normalised order of lookup, error return, skip-if-executed, collection in the loop
+//   subEmptyTest                the "nothing to sign" test after the Substrate loop as a function of
+//                               (len of the collected slice, len of any other slice)
+//   evmSignedIsSubmitted / sub… Execute hands the same proposals to ProposalsHash and to the watch loop
+//   evm/subTickWhole, TickMember, TickArg   the periodic executed-check sweeps the whole slice it is given, answers
+//                               "not yet" for a member that errs or is not executed, and is handed the whole batch
+//   btcCanExec                  BTC isExecuted: for which status a proposal may be executed
 func init() {
 	extractors["C03"] = func(o *Out) {
 		sub := o.ParseFile("chains/substrate/executor/executor.go")
-		subOrder := c3LoopOrder(FindFunc(sub, "Executor", "Execute"))
-		o.Facts["substrate_loop_order"] = subOrder
-		o.Lean.WriteString("/-- Substrate `Execute`: order of the statements of the collecting loop -/\n")
-		o.Lean.WriteString("def subOrder : List String := " + LeanStrList(subOrder) + "\n\n")
-		empt := ""
-		if c := c3IfWithBody(FindFunc(sub, "Executor", "Execute"), "return nil"); c != nil {
-			empt = Src(c)
-		}
-		o.Facts["substrate_empty_test"] = empt
-		o.Lean.WriteString("/-- Substrate `Execute`: the test that ends the call without signing -/\n")
-		o.Lean.WriteString("def subEmptyTest : String := " + LeanStr(empt) + "\n\n")
-
 		evm := o.ParseFile("chains/evm/executor/executor.go")
-		evmOrder := c3LoopOrder(FindFunc(evm, "Executor", "proposalBatches"))
-		// only the property-relevant tags (the batching statements belong to C14)
-		rel := []string{}
-		for _, t := range evmOrder {
-			if t == "lookup" || t == "err-return" || t == "skip-executed" || t == "append:currentBatch.proposals" {
-				rel = append(rel, t)
+		btc := o.ParseFile("chains/btc/executor/executor.go")
+
+		// ---- the collecting loops
+		subExec := FindFunc(sub, "Executor", "Execute")
+		subOrder, subTarget, subOK := c3FilterOrder(sub, subExec)
+		o.Facts["substrate_loop_order"] = subOrder
+		if !subOK {
+			o.Unavailable("subFilter", "the executed-filter loop of the Substrate Execute was not located (lookup, error return, skip and collection are not direct statements of one loop)")
+		}
+		o.Lean.WriteString("/-- Substrate `Execute`: normalised order of the statements of the collecting loop -/\n")
+		o.Lean.WriteString("def subFilter : Option (List String) := " + LeanOpt(subOK, LeanStrList(subOrder)) + "\n\n")
+
+		// the test that ends the call without signing: an `if` with `return nil` after the loop, as a function of
+		// n = len(<collected slice>) and other = len(<anything else>)
+		emptyTerm, emptyOK := "false", false
+		if subExec != nil && subOK {
+			for _, st := range subExec.Body.List {
+				is, ok := st.(*ast.IfStmt)
+				if !ok || len(is.Body.List) != 1 || Src(is.Body.List[0]) != "return nil" {
+					continue
+				}
+				names := map[string]string{}
+				Walk(is.Cond, func(n ast.Node) bool {
+					if c, ok := n.(*ast.CallExpr); ok && Src(c.Fun) == "len" && len(c.Args) == 1 {
+						if Src(c.Args[0]) == subTarget {
+							names[Src(c)] = "n"
+						} else {
+							names[Src(c)] = "other"
+						}
+					}
+					return true
+				})
+				if len(names) > 0 {
+					emptyTerm, emptyOK = LeanExpr(is.Cond, names)
+					o.Facts["substrate_empty_test"] = Src(is.Cond)
+				}
 			}
 		}
+		if !emptyOK {
+			o.Unavailable("subEmptyTest", "no `if <test on a slice length> { return nil }` after the Substrate collecting loop")
+		}
+		o.Lean.WriteString("/-- Substrate `Execute`: the test that ends the call without signing (n = len of the collected slice) -/\n")
+		o.Lean.WriteString("def subEmptyTest : Option (Nat → Nat → Bool) := " + LeanOpt(emptyOK, "fun n other => "+emptyTerm) + "\n\n")
+
+		evmBatches := c3Method(evm, "Executor", "proposalBatches", func(fd *ast.FuncDecl) bool {
+			return c3Results(fd) == "[]*Batch, error"
+		})
+		evmOrder, _, evmOK := c3FilterOrder(evm, evmBatches)
 		o.Facts["evm_loop_order"] = evmOrder
-		o.Lean.WriteString("/-- EVM `proposalBatches`: order of lookup / error return / skip / collection -/\n")
-		o.Lean.WriteString("def evmOrder : List String := " + LeanStrList(rel) + "\n\n")
+		if !evmOK {
+			o.Unavailable("evmFilter", "the executed-filter loop of the EVM batching function was not located")
+		}
+		o.Lean.WriteString("/-- EVM `proposalBatches`: normalised order of lookup / error return / skip / collection -/\n")
+		o.Lean.WriteString("def evmFilter : Option (List String) := " + LeanOpt(evmOK, LeanStrList(evmOrder)) + "\n\n")
 
-		// what is hashed (signed) and what is handed to watchExecution (submitted) inside Execute
+		// ---- per executor: signed = submitted, and the periodic executed-check
 		for _, x := range []struct {
-			f    *ast.File
-			lean string
-		}{{evm, "evm"}, {sub, "sub"}} {
+			f        *ast.File
+			lean     string
+			batchTyp string // type of the watch loop's batch parameter
+			viaField string // what of it holds the proposals
+		}{{evm, "evm", "*Batch", ".proposals"}, {sub, "sub", "[]*transfer.TransferProposal", ""}} {
+			exec := FindFunc(x.f, "Executor", "Execute")
+			watch := c3Method(x.f, "Executor", "watchExecution", func(fd *ast.FuncDecl) bool {
+				for _, t := range c3ParamTypes(fd) {
+					if t == "chan interface{}" {
+						return true
+					}
+				}
+				return false
+			})
+			tick := c3Method(x.f, "Executor", "areProposalsExecuted", func(fd *ast.FuncDecl) bool {
+				ts := c3ParamTypes(fd)
+				return len(ts) == 1 && ts[0] == "[]*transfer.TransferProposal" && c3Results(fd) == "bool"
+			})
+			batchIdx := -1
+			if watch != nil {
+				for i, t := range c3ParamTypes(watch) {
+					if t == x.batchTyp {
+						batchIdx = i
+					}
+				}
+			}
+			// signed = submitted
 			hashArg, watchArg := "", ""
-			Walk(FindFunc(x.f, "Executor", "Execute"), func(n ast.Node) bool {
-				if c, ok := n.(*ast.CallExpr); ok {
-					switch Src(c.Fun) {
-					case "e.bridge.ProposalsHash":
-						if len(c.Args) == 1 {
-							hashArg = Src(c.Args[0])
-						}
-					case "e.watchExecution":
-						if len(c.Args) >= 3 {
-							watchArg = Src(c.Args[2])
-						}
-					}
-				}
-				return true
-			})
-			o.Facts[x.lean+"_hash_arg"] = hashArg
-			o.Facts[x.lean+"_watch_arg"] = watchArg
-			o.Lean.WriteString("/-- " + x.lean + " `Execute`: argument of ProposalsHash and third argument of watchExecution -/\n")
-			o.Lean.WriteString("def " + x.lean + "HashArg : String := " + LeanStr(hashArg) + "\n")
-			o.Lean.WriteString("def " + x.lean + "WatchArg : String := " + LeanStr(watchArg) + "\n\n")
-		}
-
-		// the periodic executed-check: which slice the sweep ranges over, its per-member test, and what the watch loop
-		// hands to it
-		for _, x := range []struct {
-			f    *ast.File
-			lean string
-		}{{evm, "evm"}, {sub, "sub"}} {
-			rangeOver, memberTest, tickArg := "", "", ""
-			Walk(FindFunc(x.f, "Executor", "areProposalsExecuted"), func(n ast.Node) bool {
-				if rs, ok := n.(*ast.RangeStmt); ok && rangeOver == "" {
-					rangeOver = Src(rs.X)
-					for _, st := range rs.Body.List {
-						if is, ok := st.(*ast.IfStmt); ok && memberTest == "" {
-							memberTest = Src(is.Cond) + " => " + Src(is.Body)
+			if exec != nil && watch != nil && batchIdx >= 0 {
+				Walk(exec, func(n ast.Node) bool {
+					if c, ok := n.(*ast.CallExpr); ok {
+						if s, ok := c.Fun.(*ast.SelectorExpr); ok {
+							if s.Sel.Name == "ProposalsHash" && len(c.Args) == 1 {
+								hashArg = Src(c.Args[0])
+							}
+							if s.Sel.Name == watch.Name.Name && len(c.Args) > batchIdx {
+								watchArg = Src(c.Args[batchIdx])
+							}
 						}
 					}
+					return true
+				})
+			}
+			sisOK := hashArg != "" && watchArg != ""
+			o.Facts[x.lean+"_hash_arg"], o.Facts[x.lean+"_watch_arg"] = hashArg, watchArg
+			if !sisOK {
+				o.Unavailable(x.lean+"SignedIsSubmitted", "the ProposalsHash call and the call of the watch loop were not both found in Execute")
+			}
+			o.Lean.WriteString("/-- " + x.lean + " `Execute`: the proposals handed to ProposalsHash are those of the batch handed to the watch loop -/\n")
+			o.Lean.WriteString("def " + x.lean + "SignedIsSubmitted : Option Bool := " + LeanOpt(sisOK, leanBool(hashArg == watchArg+x.viaField)) + "\n\n")
+
+			// the periodic executed-check
+			wholeOK, whole := false, false
+			memberTerm, memberOK := "false", false
+			if tick != nil {
+				params := c3ParamNames(tick)
+				Walk(tick.Body, func(n ast.Node) bool {
+					body, over, isLoop := c3Loop(n)
+					if !isLoop || body == nil || wholeOK {
+						return !wholeOK
+					}
+					wholeOK = true
+					whole = len(params) == 1 && over == params[0]
+					execVar, errVar := "", ""
+					for _, st := range body.List {
+						switch s := st.(type) {
+						case *ast.AssignStmt:
+							if c3Calls(s, "IsProposalExecuted") && len(s.Lhs) == 2 {
+								execVar, errVar = Src(s.Lhs[0]), Src(s.Lhs[1])
+							}
+						case *ast.IfStmt:
+							if execVar != "" && s.Else == nil && len(s.Body.List) == 1 && Src(s.Body.List[0]) == "return false" {
+								memberTerm, memberOK = LeanExpr(s.Cond, map[string]string{
+									errVar + " != nil": "e", "nil != " + errVar: "e",
+									errVar + " == nil": "(!e)", "nil == " + errVar: "(!e)", execVar: "x"})
+							}
+						}
+					}
+					return false
+				})
+				// the function must answer true after the loop
+				if n := len(tick.Body.List); n == 0 || Src(tick.Body.List[n-1]) != "return true" {
+					memberOK = false
 				}
-				return true
-			})
-			Walk(FindFunc(x.f, "Executor", "watchExecution"), func(n ast.Node) bool {
-				if c, ok := n.(*ast.CallExpr); ok && Src(c.Fun) == "e.areProposalsExecuted" && len(c.Args) == 1 {
-					tickArg = Src(c.Args[0])
-				}
-				return true
-			})
-			o.Facts[x.lean+"_tick_range"] = rangeOver
-			o.Facts[x.lean+"_tick_member_test"] = memberTest
-			o.Facts[x.lean+"_tick_arg"] = tickArg
-			o.Lean.WriteString("/-- " + x.lean + " `areProposalsExecuted`: ranged slice, per-member test; argument passed by the watch loop -/\n")
-			o.Lean.WriteString("def " + x.lean + "TickRange : String := " + LeanStr(rangeOver) + "\n")
-			o.Lean.WriteString("def " + x.lean + "TickMemberTest : String := " + LeanStr(memberTest) + "\n")
-			o.Lean.WriteString("def " + x.lean + "TickArg : String := " + LeanStr(tickArg) + "\n\n")
+			}
+			if !wholeOK {
+				o.Unavailable(x.lean+"TickWhole", "the loop of the periodic executed-check was not located")
+			}
+			if !memberOK {
+				o.Unavailable(x.lean+"TickMember", "the per-member test of the periodic executed-check is not `if <cond> { return false }` in a loop followed by `return true`")
+			}
+			tickArgOK, tickArg := false, false
+			if tick != nil && watch != nil && batchIdx >= 0 {
+				batchName := c3ParamNames(watch)[batchIdx]
+				Walk(watch.Body, func(n ast.Node) bool {
+					if c, ok := n.(*ast.CallExpr); ok && len(c.Args) == 1 {
+						if s, ok := c.Fun.(*ast.SelectorExpr); ok && s.Sel.Name == tick.Name.Name {
+							tickArgOK = true
+							tickArg = Src(c.Args[0]) == batchName+x.viaField
+							o.Facts[x.lean+"_tick_arg"] = Src(c.Args[0])
+						}
+					}
+					return true
+				})
+			}
+			if !tickArgOK {
+				o.Unavailable(x.lean+"TickArg", "the call of the periodic executed-check was not found in the watch loop")
+			}
+			o.Lean.WriteString("/-- " + x.lean + " periodic executed-check: sweeps the whole slice it is given; per-member test (e = lookup error, x = executed) answering \"not yet\"; the watch loop hands it the whole batch -/\n")
+			o.Lean.WriteString("def " + x.lean + "TickWhole : Option Bool := " + LeanOpt(wholeOK, leanBool(whole)) + "\n")
+			o.Lean.WriteString("def " + x.lean + "TickMember : Option (Bool → Bool → Bool) := " + LeanOpt(memberOK, "fun e x => "+memberTerm) + "\n")
+			o.Lean.WriteString("def " + x.lean + "TickArg : Option Bool := " + LeanOpt(tickArgOK, leanBool(tickArg)) + "\n\n")
 		}
 
-		btc := o.ParseFile("chains/btc/executor/executor.go")
-		cond, ok := "false", false
-		if c := c3IfWithBody(FindFunc(btc, "Executor", "isExecuted"), "return false, nil"); c != nil {
-			cond, ok = LeanExpr(c, c3StatusNames("status"))
-			o.Facts["btc_can_execute_go"] = Src(c)
-		}
+		// ---- BTC: which status may be executed
+		btcIs := c3Method(btc, "Executor", "isExecuted", func(fd *ast.FuncDecl) bool {
+			return c3Results(fd) == "bool, error" && c3Calls(fd.Body, "PropStatus")
+		})
+		cond, ok := c3StatusDecision(btcIs, func(stmts []ast.Stmt) bool { return c3ReturnsBoolFirst(stmts, "false") })
 		o.Facts["btc_can_execute_translated"] = ok
-		o.Lean.WriteString("/-- BTC `isExecuted`: condition for `return false, nil` (status codes 0 missing, 1 pending, 2 failed, 3 executed) -/\n")
-		o.Lean.WriteString("def btcCanExec (s : Nat) : Bool := " + cond + "\n")
+		if !ok {
+			o.Unavailable("btcCanExec", "the status decision of the BTC isExecuted was not located as an if / switch over the status")
+		}
+		o.Lean.WriteString("/-- BTC `isExecuted`: statuses answered \"not executed\" (codes 0 missing, 1 pending, 2 failed, 3 executed) -/\n")
+		o.Lean.WriteString("def btcCanExec : Option (Nat → Bool) := " + LeanOpt(ok, "fun s => "+cond) + "\n")
+		_ = strings.TrimSpace
 	}
 }
